@@ -199,9 +199,6 @@ func (t *taintCtx) fieldTainted(f *types.Var) bool {
 	if !dataType(f.Type()) {
 		return false
 	}
-	if _, isStr := f.Type().Underlying().(*types.Basic); !isStr {
-		return true
-	}
 	if f.Exported() {
 		return true // the caller can set it
 	}
@@ -220,6 +217,10 @@ func (t *taintCtx) fieldTainted(f *types.Var) bool {
 		// a copy of another field that is itself only ever given constants (the wrapper's separator handed on to a
 		// per-render helper struct)
 		if f2, _ := loadedField(unwrap(fs.St.Val, true)); f2 != nil && !t.fieldTainted(f2) {
+			continue
+		}
+		// anything else: judged where it is stored, with every parameter of that function taken as cell text
+		if !t.tainted(fs.Fn, fs.St.Val, strings.Repeat("1", len(fs.Fn.Params))) {
 			continue
 		}
 		return true
